@@ -579,6 +579,7 @@ class Machine:
         self.step_budget = step_budget
         self.depth = 0
         self.max_depth = max_depth
+        self.externs: dict = {}
 
     # ---- type-arg helpers
     def nat(self, arg, frame: Frame) -> int:
@@ -610,7 +611,11 @@ class Machine:
     def call_defn(self, node: int, args: list, targs: list) -> list:
         op = self.S.ops[node]
         if isinstance(op, ops.FuncDecl):
-            raise VMUnsupported(f"call to declared-only function {op.f_name}")
+            h = self.externs.get(op.f_name) or self.externs.get(op.f_name.split(".")[-1])
+            if h is None:
+                raise VMUnsupported(f"call to declared-only function {op.f_name}")
+            self.events.append(("extern", op.f_name))
+            return list(h(*args))
         self.depth += 1
         if self.depth > self.max_depth:
             raise VMBudget("call depth")
@@ -1565,9 +1570,11 @@ class RunResult:
 
 
 def run(hugr, fn: str | int, args: list, prefix=(), explore_sched=False, targs=None,
-        step_budget=2_000_000, max_qubits=10) -> RunResult:
+        step_budget=2_000_000, max_qubits=10, externs=None) -> RunResult:
     ch = Chooser(prefix)
     m = Machine(hugr, ch, explore_sched=explore_sched, step_budget=step_budget, max_qubits=max_qubits)
+    if externs:
+        m.externs.update(externs)
     r = RunResult()
     try:
         r.values = m.call(fn, args, targs)
